@@ -38,7 +38,7 @@ pub fn run_case(c: &Value) -> CaseResult {
         "lru_seq" => lru::run(c),
         "poly_ops" => poly::run(c),
         "dtree_cnf" => dtree::run(c),
-        "vtree_mgr" => vtree::run(c),
+        "vtree_mgr" | "vtree_ctor" => vtree::run(c),
         "hasher_hist" | "hasher_all" => hasher::run(c),
         "sdd_prog" => sdd::run(c),
         "unitprop" => unitprop::run(c),
